@@ -128,5 +128,11 @@ func uniq(xs []string) []string {
 	return out
 }
 
-func cmdReplay(args []string) int   { fmt.Println("replay: not yet"); return 0 }
+func cmdReplay(args []string) int {
+	if len(args) != 1 {
+		fmt.Println("usage: govc replay <replay.json>")
+		return 2
+	}
+	return cmdReplayFile(args[0])
+}
 func cmdSelftest(args []string) int { fmt.Println("selftest: not yet"); return 0 }
